@@ -160,6 +160,21 @@ def render_doc(doc: str | None, indent: str) -> list[str]:
 
 def render_func(f: dict, indent: str, imports: ref.Imports, here: str) -> list[str]:
     out: list[str] = []
+    # f["overloads"] = n: n '@overload' signatures in front of the (possibly decorated) implementation; signature i
+    # annotates the first parameter with int / str / float in turn
+    for i in range(f.get("overloads", 0)):
+        imports.add("typing", "overload")
+        sig = dict(f)
+        if f["params"]:
+            first = dict(f["params"][0], ann=[["int"], ["str"], ["float"]][i % 3], default=None if f["params"][0]["default"] is None else f["params"][0]["default"])
+            sig["params"] = [first, *f["params"][1:]]
+        out.append(f"{indent}@overload")
+        if f["kind"] == "static":
+            out.append(f"{indent}@staticmethod")
+        elif f["kind"] == "classmethod":
+            out.append(f"{indent}@classmethod")
+        ret_o = " -> " + ref.render_py(f["ret"], imports, here) if f["ret"] is not None else ""
+        out.append(f"{indent}def {f['name']}({render_params(sig, imports, here)}){ret_o}: ...")
     for dsrc in f["deco"]:
         out.append(f"{indent}@{dsrc}")
     if f["kind"] == "static":
